@@ -2,6 +2,7 @@
 //
 //	c04 stress <rounds> <duration-ms>     free-running stress (build with -race), direct oracle per query
 //	c04 sched  <file>                      model-guided forced schedules read from <file> (one JSON per line)
+//	c04 eng    <file>                      engine / partition level probes (see eng.go)
 //
 // One JSON object per line on stdout; everything else (logs, race reports) goes to stderr.
 package main
@@ -40,6 +41,8 @@ func main() {
 		gen.Emit(map[string]any{"kind": "done"})
 	case "sched":
 		runSched(os.Args[2:])
+	case "eng":
+		runEng(os.Args[2:])
 	default:
 		fmt.Fprintln(os.Stderr, "unknown mode")
 		os.Exit(2)
